@@ -274,7 +274,7 @@ class Ctx:
             },
             'assumptions': self.assumptions + [
                 'CPython semantics of generators, heapq, list.sort stability and tuple comparison',
-                'no re-entrancy: an element\'s out.put(p) does not call back into the same element',
+                're-entrancy through out.put(p) is covered only as far as the order of stores and hand-over calls goes',
                 'nobody outside /repo/onl writes underscore-prefixed state',
             ],
             'wall_s': round(wall, 3),
